@@ -76,6 +76,8 @@ class E5(Evaluator):
                     return Arr([[Rat.const(d / det), Rat.const(-b / det)], [Rat.const(-c / det), Rat.const(a / det)]])
         if name == "max" and len(args) == 1:
             return Opaque("max(%s)" % (args[0].key() if hasattr(args[0], "key") else args[0]))
+        if name == "clip" and len(args) == 3 and not self._is_max_clip(args):
+            return self.general_clip(args, node)
         if name == "clip" and len(args) == 3:
             v, lo, hi = args
             if not scalar(hi).is_zero():
@@ -93,6 +95,79 @@ class E5(Evaluator):
                 out.append(self.clip_form(x, node))
             return Arr(out)
         return Evaluator._np_call(self, name, args, kwargs, node)
+
+    @staticmethod
+    def _is_max_clip(args):
+        """the idiom clip(v, -max(det_size), 0) of the pinned tree"""
+        try:
+            return scalar(args[2]).is_zero() and (single_atom(-scalar(args[1])) or "").startswith("max(")
+        except AnalysisError:
+            return False
+
+    def general_clip(self, args, node):
+        """clip(v, lo, hi) with bounds affine in the extents, v affine in the pixel coordinates and the extents: decided over
+        the whole domain (every extent >= 1, every pixel coordinate inside its raw / detector range).  A clamp that never acts
+        is the identity; one that can act stays an opaque clip(...) value, which no index or coordinate equals."""
+        from .poly import func_atom, mono_items
+        v, lo, hi = args
+
+        def vec(t, n_):
+            if isinstance(t, (Arr, list, tuple, Opaque)):
+                A = t if isinstance(t, Arr) else materialise(t)
+                if A is None or A.shape != (n_,):
+                    raise AnalysisError("E5: clip bounds of another shape than the coordinates (line %d)" % node.lineno)
+                return [scalar(x) for x in A.data]
+            return [scalar(t)] * n_
+        V = v if isinstance(v, Arr) else materialise(v)
+        if V is None or len(V.shape) != 1:
+            raise AnalysisError("E5: clip of something else than a coordinate pair (line %d)" % node.lineno)
+        xs = [scalar(x) for x in V.data]
+        los, his = vec(lo, len(xs)), vec(hi, len(xs))
+        ny, nz = Rat.atom("dety_size"), Rat.atom("detz_size")
+        ranges = {"x": (Rat.const(0), nz - 1), "y": (Rat.const(0), ny - 1), "dety": (Rat.const(0), ny - 1), "detz": (Rat.const(0), nz - 1)}
+
+        def affine(r):
+            """r = c0 + sum c_a * a with constant coefficients over the pixel and size atoms, else None"""
+            if not (len(r.den) == 1 and list(r.den.keys())[0] == 0):
+                return None
+            dc = Fraction(list(r.den.values())[0])
+            out = {}
+            for m, c in r.num.items():
+                it = mono_items(m)
+                if not it:
+                    out[None] = out.get(None, 0) + Fraction(c) / dc
+                elif len(it) == 1 and it[0][1] == 1 and (it[0][0] in ranges or it[0][0] in self.size_atoms):
+                    out[it[0][0]] = out.get(it[0][0], 0) + Fraction(c) / dc
+                else:
+                    return None
+            return out
+
+        def nonneg_for_all_sizes(r):
+            """r >= 0 for all extents >= 1 (r affine in the extents only)"""
+            f = affine(r)
+            if f is None or any(a in ranges for a in f):
+                return None
+            coefs = [f.get(a, 0) for a in sorted(self.size_atoms)]
+            return all(c >= 0 for c in coefs) and sum(coefs) + f.get(None, 0) >= 0
+        out = []
+        for x, l_, h_ in zip(xs, los, his):
+            f = affine(x)
+            if f is None and any(a.startswith("clip(") for a in x.atoms()):
+                out.append(func_atom("clip", x, l_, h_))        # built on a clamp that can act: stays opaque
+                continue
+            if f is None:
+                raise AnalysisError("E5: clip of `%s`, not affine in the pixel coordinates and extents (line %d)" % (x.key()[:60], node.lineno))
+            xmin, xmax = x, x
+            for a, (rlo, rhi) in ranges.items():
+                c = f.get(a, 0)
+                if c:
+                    xmin = xmin.subs({a: rlo if c > 0 else rhi})
+                    xmax = xmax.subs({a: rhi if c > 0 else rlo})
+            inside_lo, inside_hi = nonneg_for_all_sizes(xmin - l_), nonneg_for_all_sizes(h_ - xmax)
+            if inside_lo is None or inside_hi is None:
+                raise AnalysisError("E5: clip bounds `%s`, `%s` are not affine in the extents (line %d)" % (l_.key()[:40], h_.key()[:40], node.lineno))
+            out.append(x if (inside_lo and inside_hi) else func_atom("clip", x, l_, h_))
+        return Arr(out)
 
     def clip_form(self, x, node):
         """clip(+-(size-1), -max(sizes-1), 0) for extents >= 1: +(N-1) -> 0, -(N-1) -> -(N-1), 0 -> 0"""
